@@ -537,6 +537,47 @@ def ext_of(F, fn):
     return None
 
 
+# the task capacity each plan-carrying machine of witness w_limit was declared with (namespace of its states -> capacity); None = the
+# default (255 is the "not configured" sentinel)
+W_CAPACITY_DECLARED = {'t1': 1, 't2': 2, 't8': 8, 't254': 254}
+
+
+def capacity_extents(run, F, rule='C10.i'):
+    """type-level facts about the plan storage of every instantiated machine: the task pool holds exactly the configured number of
+    tasks, and every per-task side array (the link array, the payload array) has at least as many elements as the pool can hand out
+    indices for -- a side array sized by something else (the state count, say) is overrun as soon as more tasks than that are linked"""
+    import re
+    n = 0
+    for name, rec in F.rec_by_name.items():
+        if not name.startswith('ffsm2::detail::PlanDataT<'):
+            continue
+        fields = {f['n']: f for f in rec.get('fields', [])}
+
+        def cap(fname):
+            f = fields.get(fname)
+            r = F.rec_by_name.get(f.get('ty')) if f else None
+            return (r or {}).get('consts', {}).get('CAPACITY')
+        pool = cap('tasks')
+        if pool is None:
+            raise AnalysisBroken('PlanDataT without a task pool of known capacity: %s' % name[-60:])
+        m = re.search(r'TL_<\s*(\w+)::', name)
+        declared = W_CAPACITY_DECLARED.get(m.group(1)) if m else None
+        if declared is not None:
+            n += 1
+            run.ob(rule, 'the task pool of machine %s holds the configured %d tasks' % (m.group(1), declared), pool == declared, where=rec.get('l'),
+                   detail={'pool capacity': pool, 'declared': declared}, key='the task pool does not have the configured capacity')
+        for fname, f in fields.items():
+            ty = f.get('ty') or ''
+            if fname == 'tasks' or not ty.startswith('ffsm2::detail::StaticArrayT<'):
+                continue
+            c = cap(fname)
+            n += 1
+            run.ob(rule, 'PlanDataT::%s has an element for every task index (%s >= %d)' % (fname, c, pool), c is not None and c >= pool, where=rec.get('l'),
+                   detail={'array': fname, 'elements': c, 'task pool capacity': pool},
+                   key='PlanDataT::%s is smaller than the task pool it is indexed with' % fname)
+    return n
+
+
 def run(run):
     jobs = [('w_core', c, v) for c in facts.configs(run.tier) if facts.cfg_has(c, 'P') for v in facts.variants(run.tier)]
     jobs += [('w_shared', 'PS', v) for v in facts.variants(run.tier)] + [('w_limit', 'P', v) for v in facts.variants(run.tier)]
@@ -552,6 +593,7 @@ def run(run):
         run.guard('reset completeness', c09.reset_completeness, run, F, E, 'C10.g')
         run.guard('iterator rules', iterator_rules, run, F, E)
         run.guard('g2', g2, run, F, E)
+        run.guard('capacity extents', capacity_extents, run, F)
         facts.drop(F)
         cfgmod.clear_cache()
     run.floor('C10.a', 40)
@@ -561,6 +603,7 @@ def run(run):
     run.floor('C10.e', 6)
     run.floor('C10.f', 4)
     run.floor('C10.g', 4)
+    run.floor('C10.i', 8)
     # the capacity that was configured is the capacity the plan gets, in whatever order the configuration was written (type-level)
     from gen import static_units
     run.guard('configuration setters', static_units.report, run, 'C10.h', static_units.config_unit('C10.h'))
